@@ -18,6 +18,7 @@ THEOREMS = [
     (NS + "C13_decode_encode", "full"),
     (NS + "C13_decode_encode_canonical", "full"),
     (NS + "C13_concat", "full"),
+    (NS + "C13_prefix_free", "full"),
     (NS + "C13_int_widths", "full"),
     (NS + "C13_int_boundary_8_16", "full"),
     (NS + "C13_int_boundary_16_32", "full"),
@@ -103,6 +104,7 @@ class Real:
         self.chal = C.HandshakeClientChallengeResponseMessage
         self.pad_target = C.Packet.MAX_PAYLOAD_SIZE - 2 - C.PacketHeader.SIZE - 2
         self.reg_line = self._reg_line()
+        assert "U" not in self.reg_line, "a class default is of an unsupported type (RegWT would not hold)"
 
     def is_default_codec(self, cls):
         S = self.S
@@ -601,16 +603,26 @@ def run_dec(R, hexs, extra):
     return out, " ".join(["dec", hexs] + [t for t in extra if t.startswith("k=")] + seen)
 
 
-def run_decs(R, hexs, n):
+def run_decs(R, hexs, n, extra=()):
+    """-> (output line, rewritten op line for the model)"""
     data = unhx(hexs)
-    stream = BytesIO(data)
-    vals = []
-    for i in range(n):
-        try:
-            vals.append(canon(R, R.S.deserialize_value(stream)))
-        except Exception as e:
-            return "err:%s at=%d" % (ename(R, e), i)
-    return "ok " + " ".join(vals) + " %d" % stream.tell()
+    with Instr(R) as ins:
+        stream = BytesIO(data)
+        vals = []
+        out = None
+        for i in range(n):
+            try:
+                vals.append(canon(R, R.S.deserialize_value(stream)))
+            except Exception as e:
+                out = "err:%s at=%d" % (ename(R, e), i)
+                break
+        if out is None:
+            out = "ok " + " ".join(vals) + " %d" % stream.tell()
+        seen = []
+        for o in ins.oracle:
+            if o not in seen:
+                seen.append(o)
+    return out, " ".join(["decs", hexs, str(n)] + seen)
 
 
 def run_rnd(R, hexs):
@@ -649,7 +661,8 @@ class Impl:
                 o, new = run_dec(R, w[1], w[2:])
                 out.append(o)
             elif w[0] == "decs":
-                out.append(run_decs(R, w[1], int(w[2])))
+                o, new = run_decs(R, w[1], int(w[2]), w[3:])
+                out.append(o)
             elif w[0] == "rnd":
                 out.append(run_rnd(R, w[1]))
             lines.append(new)
@@ -677,22 +690,16 @@ class Impl:
 def parallel_lean(orig, driver, lines, timeout, workers=4):
     """split the op stream at case boundaries and run several driver processes side by side"""
     starts = [i for i, ln in enumerate(lines) if ln.startswith("case ")]
-    if len(starts) < 2 * workers or len(lines) < 2000:
+    if len(starts) < 2 * workers or len(lines) < 1000:
         return orig(driver, lines, timeout)
     from concurrent.futures import ThreadPoolExecutor
-    # balance by characters
-    total = sum(len(ln) for ln in lines)
-    chunks, cur, size = [], [], 0
+    # deal the cases round robin (expensive cases are neighbours); the output is keyed by `#case`
+    # markers, so its order does not matter
+    chunks = [[] for _ in range(workers)]
     bounds = starts + [len(lines)]
-    for a, b in zip(bounds, bounds[1:]):
-        seg = lines[a:b]
-        cur.extend(seg)
-        size += sum(len(ln) for ln in seg)
-        if size >= total / workers and len(chunks) < workers - 1:
-            chunks.append(cur)
-            cur, size = [], 0
-    if cur:
-        chunks.append(cur)
+    for i, (a, b) in enumerate(zip(bounds, bounds[1:])):
+        chunks[i % workers].extend(lines[a:b])
+    chunks = [c for c in chunks if c]
     with ThreadPoolExecutor(max_workers=workers) as ex:
         outs = list(ex.map(lambda c: orig(driver, c, timeout), chunks))
     return [ln for o in outs for ln in o]
@@ -1152,7 +1159,8 @@ def run(ctx):
     # decode side of the boundary is exercised with 2**14 (accepted) and 2**14+1 (refused) announced entries
     # that repeat a few keys, and with 3000 distinct keys; the encode side with 2**14 distinct keys
     for label, v in limit_values_slow(R):
-        cases.append(make_case(R, "limit-" + label, ["enc " + tok(R, v)]))
+        if ctx.tier == "thorough":
+            cases.append(make_case(R, "limit-" + label, ["enc " + tok(R, v)]))
         values.append((label, v))
     one = b"\x00\x03\x01"
     ops = []
@@ -1160,7 +1168,8 @@ def run(ctx):
         ops.append("dec 0011+" + hx(struct.pack(">Hh", 4, n)) + "+%d*%s" % (n, (one + one).hex()))
         ops.append("dec 0012+" + hx(struct.pack(">Hh", 4, n)) + "+%d*%s" % (n, one.hex()))
         ops.append("dec 0010+" + hx(struct.pack(">Hh", 4, n)) + "+%d*%s" % (n, one.hex()))
-    for big in ({i: None for i in range(3000)}, set(range(3000))):
+    nbig = ctx.scale(1200, 3000)
+    for big in ({i: None for i in range(nbig)}, set(range(nbig))):
         try:
             ops.append("dec " + hx(real_encode(R, big)))
         except Exception:
@@ -1203,6 +1212,10 @@ def run(ctx):
         hs_pairs.append((ch, real_encode(R, ch), {}, "k=nokw"))
     for m, b, kw, kwtok in hs_pairs:
         ops.append("dec %s %s" % (hx(b + b"\x00\x0f"), kwtok))
+    # a client hello in the middle of a stream: its padding is measured from where it starts
+    b_hello = hs_pairs[0][1]
+    ops.append("decs %s 3" % hx(b"\x00\x03\x05" + b_hello + b"\x00\x0f"))
+    ops.append("decs %s 3" % hx(b"\x00\x0d\x00\x03\x02hi" + b_hello[:-1] + b"\x00\x0f"))
     cases.append(make_case(R, "handshake-enc", ops))
 
     # random values: encode, decode the encoding, decode concatenations
